@@ -56,7 +56,7 @@ def make_cases(ctx, cid, en, flags, mode=None):
              ["jsons"] + [l for _, l in jsons], ["sqls"] + [l for _, l in sqls],
              ["ints"] + [[tv] + [str(v) for v in vs] for tv, vs in main_ints], ["encs"] + [str(v) for v in encs]]
     args = ["enum"] + ["-" + f for f in flags] + lay["sel"]
-    main = {"id": cid, "en": en, "decl": decl, "flags": flags, "files": lay["files"], "mode": lay["mode"] + ("+spread" if lay["spread"] and lay["mode"].startswith("file") else ""),
+    main = {"id": cid, "en": en, "decl": decl, "flags": flags, "files": lay["files"], "verbose": lay["verbose"], "mode": lay["mode"] + ("+spread" if lay["spread"] and lay["mode"].startswith("file") else ""),
             "runs": [{"args": args}] * (2 if rerun else 1), "rerun": rerun,
             "oracle": {".": enumgen.oracle_c12(en, decl, flags, target, strs, jsons, sqls, main_ints, encs, tints)},
             "sexp": enumgen.case_sexp(cid, "c12", en, extra), "cmd": "shoot " + " ".join(args), "kind": "main",
@@ -164,6 +164,7 @@ def run(ctx, obl):
             res.hist("flagset", "+".join(main["flags"]) or "none")
             res.hist("run-mode", main["mode"])
             res.hist("rerun", str(main["rerun"]))
+            res.hist("verbose-flag", str(main["verbose"]))
             res.hist("generated-header-file", str(bool(main["en"].get("genheader"))))
             res.hist("requested-feature", main["en"].get("feature", "random"))
             res.hist("constants", str(len(main["decl"])))
